@@ -579,6 +579,16 @@ class Extractor:
             self.out.append("  | .%s => %s" % (lean, "true" if guarded[fn] else "false"))
         self.out.append("")
         self.digest["facts"]["guarded"] = guarded
+        # what the guard does when it is dropped during a panic
+        toks = self.src.load("scheduler/active_queue.rs")
+        o, c = find_fn(toks, "drop", impl_of="ActiveQueue")
+        body = [t[1] for t in toks[o:c + 1]]
+        marks = any(body[k:k + 6] == ["core", ".", "state", "=", "QueueState", "::"] and body[k + 6] == "Panicked" for k in range(len(body) - 6))
+        conds = [k for k in range(len(body)) if body[k] in ("if", "match", "while")]
+        uncond = marks and len(conds) == 1 and body[conds[0] + 1:conds[0] + 4] == ["thread", "::", "panicking"] and not any(t in ("==", "!=", "is_running", "&&", "||") for t in body)
+        self.out.append("/-- active_queue.rs `Drop for ActiveQueue`: while panicking the queue is marked Panicked whatever its state (the only condition is `thread::panicking()`) -/")
+        self.out.append("def guardMarksPanickedAlways : Bool := %s\n" % ("true" if uncond else "false"))
+        self.digest["facts"]["guardMarksPanickedAlways"] = uncond
         # queue operations per function
         ops = {}
         for rel in ("scheduler/desync_scheduler.rs", "scheduler/job_queue.rs", "scheduler/core.rs", "scheduler/scheduler_future.rs", "scheduler/wake_queue.rs", "scheduler/wake_thread.rs"):
